@@ -422,6 +422,18 @@ impl VisitMut for Normalizer {
                     };
                     let (a, b) = if neg { (else_e, then_e) } else { (then_e, else_e) };
                     replacement = Some(mk_match(scrut, vec![arm(pat, a), wild_arm(b)]));
+                } else if matches!(&*i.cond, syn::Expr::Binary(b) if matches!(b.op, syn::BinOp::Ne(_))) && matches!(i.else_branch.as_ref().map(|x| &*x.1), Some(syn::Expr::Block(_))) {
+                    // `if a != b {X} else {Y}`  ->  `if a == b {Y} else {X}`
+                    let mut ni = i.clone();
+                    if let syn::Expr::Binary(b) = &mut *ni.cond {
+                        b.op = syn::BinOp::Eq(Default::default());
+                    }
+                    if let Some((_, el)) = &mut ni.else_branch {
+                        if let syn::Expr::Block(eb) = &mut **el {
+                            std::mem::swap(&mut ni.then_branch, &mut eb.block);
+                        }
+                    }
+                    replacement = Some(syn::Expr::If(ni));
                 }
             }
             syn::Expr::While(w) if w.attrs.is_empty() && w.label.is_none() => {
@@ -496,6 +508,11 @@ impl VisitMut for Normalizer {
             sort_arms(m);
         }
     }
+}
+
+pub fn normalize_expr(e: &mut syn::Expr) {
+    Normalizer.visit_expr_mut(e);
+    Normalizer.visit_expr_mut(e);
 }
 
 pub fn normalize_file(f: &mut syn::File) {
